@@ -5,15 +5,21 @@ import json, os, shutil, sys
 V = os.path.dirname(os.path.dirname(os.path.abspath(__file__)))
 inc = os.path.join(V, "seeded_incoming")
 conf = json.load(open(os.path.join(inc, "confirm.json")))
-ports = {"C02/m2": "c02_m2_port.diff", "C04/m1": "c04_m1_port.diff", "C04/m3": "c04_m3_port.diff", "C09/m1": "c09_m1_port.diff",
+ports = {"C02/m2": "c02_m2_port.diff", "C04/m1": "c04_m1_port.diff", "C09/m1": "c09_m1_port.diff",
          "C12/m2": "c12_m2_port.diff", "C18/m2": "c18_m2_port.diff"}
 pinned = "af767fa"
-for key, c in sorted(conf.items()):
+items = [(k, c, inc, "") for k, c in sorted(conf.items())]
+# second round (fresh sub-agents on the repaired tree): raw deliveries in seeded_incoming/round2
+inc2 = os.path.join(inc, "round2")
+c2p = os.path.join(inc, "confirm2.json")
+if os.path.exists(c2p) and os.path.isdir(inc2):
+    items += [(k, c, inc2, "r2") for k, c in sorted(json.load(open(c2p)).items())]
+for key, c, srcroot, tag in items:
     prop, m = key.split("/")
-    src = os.path.join(inc, prop, m)
+    src = os.path.join(srcroot, prop, m)
     if not c.get("confirmed"):
         continue
-    dst = os.path.join(V, "seeded", "%s-%s" % (prop, m.replace("extra_", "")))
+    dst = os.path.join(V, "seeded", "%s-%s%s" % (prop, tag, m.replace("extra_", "")))
     os.makedirs(dst, exist_ok=True)
     shutil.copy(os.path.join(src, "patch.diff"), os.path.join(dst, "patch.diff"))
     for f in os.listdir(src):
@@ -21,10 +27,10 @@ for key, c in sorted(conf.items()):
             shutil.copy(os.path.join(src, f), os.path.join(dst, "demo_test.go"))
     meta = json.load(open(os.path.join(src, "meta.json")))
     base = pinned
-    bf = os.path.join(inc, prop, "BASE")
+    bf = os.path.join(srcroot, prop, "BASE")
     if os.path.exists(bf):
         base = open(bf).read().strip()
-    out = {"property": prop, "id": "%s-%s" % (prop, m.replace("extra_", "")), "summary": meta.get("summary"), "needs": meta.get("needs"),
+    out = {"property": prop, "id": "%s-%s%s" % (prop, tag, m.replace("extra_", "")), "summary": meta.get("summary"), "needs": meta.get("needs"),
            "files": meta.get("files"), "base_commit": base,
            "demo": {"file": "demo_test.go", "install_as": c.get("dest"), "cmd": c.get("demo_cmd")},
            "confirmed": {"by": "tools/confirm_seeded.py in a scratch worktree at base_commit", "patch_applies": c.get("applies"), "builds": c.get("builds"),
